@@ -263,6 +263,8 @@ fn normalise(batch: &[Op], w: &World) -> Vec<Op> {
 }
 
 const T: Duration = Duration::from_secs(40);
+/// how long an expected publication is waited for before the server is probed for idleness
+const TP: Duration = Duration::from_secs(15);
 
 fn exec_batch(w: &mut World, batch: &[Op], salt: u64, ctx: &mut CaseCtx) -> Result<Result<(), String>, LspError> {
     // ops that re-read the file from disk are issued with buffer == disk (must-hold sub-space)
@@ -542,7 +544,7 @@ fn exec_batch(w: &mut World, batch: &[Op], salt: u64, ctx: &mut CaseCtx) -> Resu
     for i in 0..DOCS.len() {
         let want = before[i] + expect_pubs[i];
         let uri = uris[i].clone();
-        match w.s.pump_until(T, "expected publications of the batch", |s| s.publications_for(&uri) >= want) {
+        match w.s.pump_until(TP, "expected publications of the batch", |s| s.publications_for(&uri) >= want) {
             Ok(()) => {}
             // No handler is waiting for an answer of ours and the server answers later requests:
             // it has said its last word. Whether that word is right is for the oracle below.
@@ -648,7 +650,7 @@ fn exec_config_with_closes(w: &mut World, batch: &[Op], salt: u64, ctx: &mut Cas
     let mut guard = 0;
     while !done(&w.s) && guard < 16 {
         guard += 1;
-        match w.s.pump_until(T, "configuration request of the refresh loop", |s| !s.pending_config.is_empty() || done(s)) {
+        match w.s.pump_until(TP, "configuration request of the refresh loop", |s| !s.pending_config.is_empty() || done(s)) {
             Ok(()) => {}
             Err(LspError::Timeout(t)) => {
                 if !idle_barrier(&mut w.s)? {
